@@ -92,11 +92,11 @@ func TestC05(t *testing.T) {
 	total := 256 + 1 + nRandom
 	clients := []string{"a", "b", "*"}
 	ids := []uint16{1, 2, 3}
-	names := []string{"", "x", "y", "zz"} // "" = absent; "zz" is also a legal short name
+	names := []string{"\x00absent", "x", "y", ""} // "\x00absent" = no entry; "" = an entry whose topic name is empty (option "client;;id")
 	r.Each(t, total, 0, func(i int) string {
 		switch {
 		case i < 256:
-			return fmt.Sprintf("exhaustive slice %d of configs over clients{a,b,*} x ids{1,2,3} x names{x,y,zz,absent}", i)
+			return fmt.Sprintf("exhaustive slice %d of configs over clients{a,b,*} x ids{1,2,3} x names{x,y,empty-name,absent}", i)
 		case i == 256:
 			return "repository topics.yaml + YAML round trip"
 		}
@@ -111,13 +111,13 @@ func TestC05(t *testing.T) {
 				d := code
 				for _, cl := range clients {
 					for _, id := range ids {
-						if nm := names[d&3]; nm != "" {
+						if nm := names[d&3]; nm != "\x00absent" {
 							cfg.Add(cl, nm, id)
 						}
 						d >>= 2
 					}
 				}
-				q += checkPredef(c, cfg, []string{"a", "b", "c"}, []uint16{1, 2, 3, 4}, []string{"x", "y", "zz", "w"}, 6)
+				q += checkPredef(c, cfg, []string{"a", "b", "c"}, []uint16{1, 2, 3, 4}, []string{"x", "y", "", "w"}, 6)
 				n++
 			}
 			c.Evals(n)
@@ -198,5 +198,5 @@ func TestC05(t *testing.T) {
 			c.Evals(n)
 		}
 	})
-	r.Finish("configurations: all 4^9=262144 maps over clients {a,b,*} x IDs {1,2,3} x names {x,y,zz,absent} (exhaustive, 256 slices), the repository's topics.yaml through ReadPredefinedTopicsFile, 50 generated YAML files (round trip), random larger maps. Per configuration every (client in a,b,c / id 1..4) name lookup and every (client, name) ID lookup is repeated 4-16 times (Go map iteration order varies) against a reference lookup; a configuration counts as one distinct case.", map[string]interface{}{"exhaustive_space": "4^9 configurations x 3 clients x (4 ids + 4 names)"})
+	r.Finish("configurations: all 4^9=262144 maps over clients {a,b,*} x IDs {1,2,3} x names {x, y, the empty name, absent} (exhaustive, 256 slices), the repository's topics.yaml through ReadPredefinedTopicsFile, 50 generated YAML files (round trip), random larger maps. Per configuration every (client in a,b,c / id 1..4) name lookup and every (client, name) ID lookup is repeated 4-16 times (Go map iteration order varies) against a reference lookup; a configuration counts as one distinct case.", map[string]interface{}{"exhaustive_space": "4^9 configurations x 3 clients x (4 ids + 4 names)"})
 }
